@@ -65,12 +65,20 @@ def frame_pool(rng, extra_ubx=()):
     for body in ("GNGGA,092204.999,4250.5589,S,14718.5084,E,1,04,24.4,19.7,M,,,,0000",
                  "GPGLL,5327.04319,N,00214.41396,W,223232.00,A,A", "GNRMC,,V,,,,,,,,,,N", "GPZZZ,1,2,3", "PUBX,00"):
         out.append((nmea_line(body), "NMEA"))
+    # valid checksum but fields that cannot be converted / unknown talkers (rejected by the parser in other ways than the checksum)
+    for body in ("GNGGA,x,y,z", "GNGSV,x,y,z", "GNGGA,092204.999,4250.5589,S,14718.5084,E,1,0x,24.4,19.7,M,,,,0000", "GNRMC,abc,V,,,,,,,zz,,,N",
+                 "GNVTG,,T,,M,a,N,b,K,N", "GPGSA,A,3,1,2,x", "G", "GN"):
+        out.append((nmea_line(body), "NMEA"))
     out.append((b"$GNGLL,5327.04319,N*00\r\n", "NMEA"))  # bad checksum
     out.append((b"$G\n", "NMEA"))
     out.append((b"$P\r\n", "NMEA"))
     for pl in (b"", b"\x3e", b"\x3e\xd0\x00", bytes(5), bytes(19), bytes(range(40)), b"\x43\x20" + bytes(30)):
         out.append((rtcm_frame(pl), "RTCM"))
         out.append((rtcm_frame(pl, good=False), "RTCM"))
+    for typ in (1005, 1077, 1230, 4072):  # known message types cut short / zero-filled (valid CRC)
+        hdr = (typ << 4).to_bytes(2, "big")
+        for ln in (2, 3, 10, 40):
+            out.append((rtcm_frame(hdr + bytes(ln - 2)), "RTCM"))
     out.append((rtcm_frame(bytes(300)), "RTCM"))
     out.append((rtcm_frame(bytes(1023)), "RTCM"))
     # UBX: zero length, unknown class, bad checksum, payload containing preamble bytes
@@ -81,6 +89,9 @@ def frame_pool(rng, extra_ubx=()):
     out.append((frame(0x01, 0x07, rng.randbytes(92)), "UBX"))
     out.append((frame(0x01, 0x07, rng.randbytes(91)), "UBX"))
     out.append((frame(0x0A, 0x04, bytes(40)), "UBX"))
+    for n in (254, 255, 256, 257, 258, 511, 512, 1000, 6000):  # lengths around byte boundaries and long frames
+        out.append((frame(0x77, n & 0xFF, rng.randbytes(n)), "UBX"))
+        out.append((frame(0x02, 0x15, rng.randbytes(n)), "UBX"))
     return out
 
 
